@@ -10,9 +10,12 @@
 //   r.fam_q(op, …)                additionally `<op>_mediump`, `<op>_lowp`
 //   r.simd_only(op, nin, nout, Q, f)   only the aligned variant (the packed one is not expressible / not traceable)
 //   r.kern(fn, nin, nout, f)      f(F const* x, F* o)          direct call of a glm/simd/*.h kernel   (SIMD builds only)
+//   r.lit_fam<S, A>(op, nargs, nout, f)   f(A const* a, S* o, QT<Q>), A = int or unsigned: a constructor taking C++ integers.
+//                                 tracer: a unit with NO inputs, evaluated at c03::C03_LIT; harness: one line at C03_LIT, then seeded
 //   r.ifam / r.ufam(op, …)        f(I const* x, I* o, QT<Q>)   integer vec4 (int / unsigned)
+//   R::iarg<Q>(x)                 the C++ int / unsigned a constructor of an integer vector receives for input x;  R::sti<L>(o, v)
 //   r.ikern / r.ukern(fn, …)
-//   R::ldi<Q>(x) / R::ldu<Q>(x)   load an integer vec4 of qualifier Q;  R::sti(o, v) store it;  R::ldki / R::stki registers
+//   R::ldi<Q>(x) / R::ldu<Q>(x)   load an integer vec4 of qualifier Q;  R::template sti<4>(o, v) store it;  R::ldki / R::stki registers
 #pragma once
 #include <string>
 
@@ -132,6 +135,8 @@ template<class F, class R> void matrix_ops(R& r, std::string const& pre = "") {
 }
 
 template<class F, class R> void quat_ops(R& r, std::string const& pre = "") {
+  r.template fam<F>(pre + "quat_ctor_sv3", 4, 4, [](F const* x, F* o, auto q) { C03_Q; stq<Q>(o, glm::qua<F, Q>(x[0], ld<3, Q>(x + 1))); });
+  r.template fam<F>(pre + "quat_ctor_copy", 4, 4, [](F const* x, F* o, auto q) { C03_Q; glm::qua<F, Q> a = ldq<Q>(x); glm::qua<F, Q> b(a); stq<Q>(o, b); });
   r.template fam<F>(pre + "quat_mul", 8, 4, [](F const* x, F* o, auto q) { C03_Q; stq<Q>(o, ldq<Q>(x) * ldq<Q>(x + 4)); });
   r.template fam<F>(pre + "quat_add", 8, 4, [](F const* x, F* o, auto q) { C03_Q; stq<Q>(o, ldq<Q>(x) + ldq<Q>(x + 4)); });
   r.template fam<F>(pre + "quat_sub", 8, 4, [](F const* x, F* o, auto q) { C03_Q; stq<Q>(o, ldq<Q>(x) - ldq<Q>(x + 4)); });
@@ -147,6 +152,71 @@ template<class F, class R> void quat_ops(R& r, std::string const& pre = "") {
   r.template fam<F>(pre + "quat_mix", 9, 4, [](F const* x, F* o, auto q) { C03_Q; stq<Q>(o, glm::mix(ldq<Q>(x), ldq<Q>(x + 4), x[8])); });
   r.template fam<F>(pre + "quat_lerp", 9, 4, [](F const* x, F* o, auto q) { C03_Q; stq<Q>(o, glm::lerp(ldq<Q>(x), ldq<Q>(x + 4), x[8])); });
   r.template fam<F>(pre + "quat_slerp", 9, 4, [](F const* x, F* o, auto q) { C03_Q; stq<Q>(o, glm::slerp(ldq<Q>(x), ldq<Q>(x + 4), x[8])); });
+}
+
+// ------------------------------------------------------------------ constructors / conversions
+// Counterparts of a highp qualifier within the same storage class (only highp qualifiers are registered by fam)
+template<qualifier Q> struct QMap;
+template<> struct QMap<glm::packed_highp> { static constexpr qualifier lowp = glm::packed_lowp, mediump = glm::packed_mediump; };
+#if GLM_CONFIG_ALIGNED_GENTYPES == GLM_ENABLE
+template<> struct QMap<glm::aligned_highp> { static constexpr qualifier lowp = glm::aligned_lowp, mediump = glm::aligned_mediump; };
+#endif
+// fixed, pairwise distinct, float-exact arguments at which the constructors taking C++ int / unsigned are traced
+static const int C03_LIT[4] = {3, 5, 7, -11};
+
+// constructors of a real vector (F = float or double) from symbolic scalars / other vectors
+template<class F, class R> void ctor_ops(R& r, std::string const& pre = "") {
+  using glm::packed_highp;
+  r.template fam_q<F>(pre + "ctor4_s", 1, 4, [](F const* x, F* o, auto q) { C03_Q; st<4, Q>(o, glm::vec<4, F, Q>(x[0])); });
+  r.template fam_q<F>(pre + "ctor4_f4", 4, 4, [](F const* x, F* o, auto q) { C03_Q; st<4, Q>(o, glm::vec<4, F, Q>(x[0], x[1], x[2], x[3])); });
+  r.template fam_q<F>(pre + "ctor3_s", 1, 3, [](F const* x, F* o, auto q) { C03_Q; st<3, Q>(o, glm::vec<3, F, Q>(x[0])); });
+  r.template fam_q<F>(pre + "ctor3_f3", 3, 3, [](F const* x, F* o, auto q) { C03_Q; st<3, Q>(o, glm::vec<3, F, Q>(x[0], x[1], x[2])); });
+  r.template fam<F>(pre + "ctor4_v3s", 4, 4, [](F const* x, F* o, auto q) { C03_Q; st<4, Q>(o, glm::vec<4, F, Q>(ld<3, Q>(x), x[3])); });
+  r.template fam<F>(pre + "ctor4_sv3", 4, 4, [](F const* x, F* o, auto q) { C03_Q; st<4, Q>(o, glm::vec<4, F, Q>(x[0], ld<3, Q>(x + 1))); });
+  r.template fam<F>(pre + "ctor4_v2v2", 4, 4, [](F const* x, F* o, auto q) { C03_Q; st<4, Q>(o, glm::vec<4, F, Q>(glm::vec<2, F, Q>(x[0], x[1]), glm::vec<2, F, Q>(x[2], x[3]))); });
+  r.template fam<F>(pre + "ctor3_v4", 4, 3, [](F const* x, F* o, auto q) { C03_Q; st<3, Q>(o, glm::vec<3, F, Q>(ld<4, Q>(x))); });
+  r.template fam<F>(pre + "ctor3_v2s", 3, 3, [](F const* x, F* o, auto q) { C03_Q; st<3, Q>(o, glm::vec<3, F, Q>(glm::vec<2, F, Q>(x[0], x[1]), x[2])); });
+#define C03_CONV(L) \
+  r.template fam<F>(pre + "conv" #L "_copy", L, L, [](F const* x, F* o, auto q) { C03_Q; glm::vec<L, F, Q> a = ld<L, Q>(x); glm::vec<L, F, Q> b(a); st<L, Q>(o, b); }); \
+  r.template fam<F>(pre + "conv" #L "_from_packed", L, L, [](F const* x, F* o, auto q) { C03_Q; st<L, Q>(o, glm::vec<L, F, Q>(ld<L, packed_highp>(x))); }); \
+  r.template fam<F>(pre + "conv" #L "_to_packed", L, L, [](F const* x, F* o, auto q) { C03_Q; st<L, packed_highp>(o, glm::vec<L, F, packed_highp>(ld<L, Q>(x))); }); \
+  r.template fam<F>(pre + "conv" #L "_lowp", L, L, [](F const* x, F* o, auto q) { C03_Q; constexpr qualifier QL = QMap<Q>::lowp; st<L, QL>(o, glm::vec<L, F, QL>(ld<L, Q>(x))); }); \
+  r.template fam<F>(pre + "conv" #L "_mediump", L, L, [](F const* x, F* o, auto q) { C03_Q; constexpr qualifier QM = QMap<Q>::mediump; st<L, QM>(o, glm::vec<L, F, QM>(ld<L, Q>(x))); }); \
+  r.template fam<F>(pre + "conv" #L "_from_lowp", L, L, [](F const* x, F* o, auto q) { C03_Q; constexpr qualifier QL = QMap<Q>::lowp; st<L, Q>(o, glm::vec<L, F, Q>(ld<L, QL>(x))); }); \
+  r.template fam<F>(pre + "conv" #L "_lowp_from_packed", L, L, [](F const* x, F* o, auto q) { C03_Q; constexpr qualifier QL = QMap<Q>::lowp; st<L, QL>(o, glm::vec<L, F, QL>(ld<L, packed_highp>(x))); }); \
+  r.template fam<F>(pre + "conv" #L "_lowp_to_packed", L, L, [](F const* x, F* o, auto q) { C03_Q; constexpr qualifier QL = QMap<Q>::lowp; st<L, packed_highp>(o, glm::vec<L, F, packed_highp>(ld<L, QL>(x))); });
+  C03_CONV(4) C03_CONV(3)
+#undef C03_CONV
+  // real vector from C++ int / unsigned arguments: not symbolic; the tracer evaluates them at C03_LIT (NOTES.md),
+  // the harness additionally at seeded arguments
+  r.template lit_fam_q<F, int>(pre + "ctor4_i4", 4, 4, [](int const* a, F* o, auto q) { C03_Q; st<4, Q>(o, glm::vec<4, F, Q>(a[0], a[1], a[2], a[3])); });
+  r.template lit_fam_q<F, int>(pre + "ctor3_i3", 3, 3, [](int const* a, F* o, auto q) { C03_Q; st<3, Q>(o, glm::vec<3, F, Q>(a[0], a[1], a[2])); });
+  r.template lit_fam_q<F, unsigned>(pre + "ctor4_u4", 4, 4, [](unsigned const* a, F* o, auto q) { C03_Q; st<4, Q>(o, glm::vec<4, F, Q>(a[0], a[1], a[2], a[3])); });
+  r.template lit_fam_q<F, unsigned>(pre + "ctor3_u3", 3, 3, [](unsigned const* a, F* o, auto q) { C03_Q; st<3, Q>(o, glm::vec<3, F, Q>(a[0], a[1], a[2])); });
+  r.template lit_fam<F, int>(pre + "ctor4_i1", 1, 4, [](int const* a, F* o, auto q) { C03_Q; st<4, Q>(o, glm::vec<4, F, Q>(a[0])); });
+  r.template lit_fam<F, int>(pre + "ctor3_i1", 1, 3, [](int const* a, F* o, auto q) { C03_Q; st<3, Q>(o, glm::vec<3, F, Q>(a[0])); });
+}
+
+// constructors / conversions of integer vectors.  The scalar arguments are symbolic: R::iarg<Q>(x) is the C++ int glm
+// receives (harness: the value; tracer, aligned: the lane word of the input, which the fake _mm_set*_epi32 recognises
+// and keeps as that lane; tracer, packed: the SymI32 itself).  `T` below is the element type that results.
+template<class S, class R, class ARG, class ADD> void int_ctor_ops_t(std::string const& p, ARG arg, ADD add) {
+  using glm::packed_highp;
+  add(p + "ctor4_s", 1, 4, [arg](S const* x, S* o, auto q) { C03_Q; auto a = arg(x[0], q); using T = decltype(a); R::template sti<4>(o, glm::vec<4, T, Q>(a)); });
+  add(p + "ctor4_i4", 4, 4, [arg](S const* x, S* o, auto q) { C03_Q; auto a = arg(x[0], q); using T = decltype(a); R::template sti<4>(o, glm::vec<4, T, Q>(a, arg(x[1], q), arg(x[2], q), arg(x[3], q))); });
+  add(p + "ctor3_s", 1, 3, [arg](S const* x, S* o, auto q) { C03_Q; auto a = arg(x[0], q); using T = decltype(a); R::template sti<3>(o, glm::vec<3, T, Q>(a)); });
+  add(p + "ctor3_i3", 3, 3, [arg](S const* x, S* o, auto q) { C03_Q; auto a = arg(x[0], q); using T = decltype(a); R::template sti<3>(o, glm::vec<3, T, Q>(a, arg(x[1], q), arg(x[2], q))); });
+#define C03_ICONV(L, ARGS) \
+  add(p + "conv" #L "_copy", L, L, [arg](S const* x, S* o, auto q) { C03_Q; auto a = arg(x[0], q); using T = decltype(a); glm::vec<L, T, Q> v ARGS; glm::vec<L, T, Q> w(v); R::template sti<L>(o, w); }); \
+  add(p + "conv" #L "_from_packed", L, L, [arg](S const* x, S* o, auto q) { C03_Q; auto a = arg(x[0], q); using T = decltype(a); glm::vec<L, T, packed_highp> v ARGS; R::template sti<L>(o, glm::vec<L, T, Q>(v)); }); \
+  add(p + "conv" #L "_to_packed", L, L, [arg](S const* x, S* o, auto q) { C03_Q; auto a = arg(x[0], q); using T = decltype(a); glm::vec<L, T, Q> v ARGS; R::template sti<L>(o, glm::vec<L, T, packed_highp>(v)); });
+  C03_ICONV(4, (a, arg(x[1], q), arg(x[2], q), arg(x[3], q))) C03_ICONV(3, (a, arg(x[1], q), arg(x[2], q)))
+#undef C03_ICONV
+}
+template<class R> void int_ctor_ops(R& r) {
+  using I = typename R::I; using U = typename R::U;
+  int_ctor_ops_t<I, R>("i", [](I x, auto q) { C03_Q; return R::template iarg<Q>(x); }, [&r](std::string const& n, int nin, int nout, auto f) { r.ifam(n, nin, nout, f); });
+  int_ctor_ops_t<U, R>("u", [](U x, auto q) { C03_Q; return R::template iarg<Q>(x); }, [&r](std::string const& n, int nin, int nout, auto f) { r.ufam(n, nin, nout, f); });
 }
 
 // double quaternions: + and - have AVX code; `q * s` and `q / s` (compute_quat_mul_scalar<double,Q,true>) do not compile
@@ -203,20 +273,20 @@ template<class R> void kernel_ops(R& r) {
 // operators that fall back to the generic per-component code on aligned integer vectors (nothing to trace there: it
 // is the pure code itself).  C03_INT_MINMAX: _mm_min_epi32 & co are SSE4.1 instructions glm uses without a guard.
 template<class S, class R, class LOAD, class ADD> void int_ops_t(R& r, std::string const& p, bool is_signed, LOAD ldv, ADD add) {
-#define C03_I2(name, expr) add(p + name, 8, 4, [ldv](S const* x, S* o, auto q) { auto a = ldv(x, q), b = ldv(x + 4, q); R::sti(o, expr); });
+#define C03_I2(name, expr) add(p + name, 8, 4, [ldv](S const* x, S* o, auto q) { auto a = ldv(x, q), b = ldv(x + 4, q); R::template sti<4>(o, expr); });
   if (is_signed) { C03_I2("add", a + b) C03_I2("sub", a - b) C03_I2("mul", a * b) }
   C03_I2("and", a & b) C03_I2("or", a | b)
 #ifdef C03_INT_MINMAX
   C03_I2("min", glm::min(a, b)) C03_I2("max", glm::max(a, b))
-  add(p + "clamp", 12, 4, [ldv](S const* x, S* o, auto q) { R::sti(o, glm::clamp(ldv(x, q), ldv(x + 4, q), ldv(x + 8, q))); });
+  add(p + "clamp", 12, 4, [ldv](S const* x, S* o, auto q) { R::template sti<4>(o, glm::clamp(ldv(x, q), ldv(x + 4, q), ldv(x + 8, q))); });
 #endif
   // the remaining operators: no SIMD code in effect (kept so that the trace shows it: they come out as X units)
   C03_I2("xor", a ^ b) C03_I2("shl", a << b) C03_I2("shr", a >> b)
   if (!is_signed) { C03_I2("add", a + b) C03_I2("sub", a - b) C03_I2("mul", a * b) }
 #undef C03_I2
-  add(p + "not", 4, 4, [ldv](S const* x, S* o, auto q) { R::sti(o, ~ldv(x, q)); });
-  if (is_signed) add(p + "adds", 4, 4, [ldv](S const* x, S* o, auto q) { auto a = ldv(x, q); R::sti(o, a + typename decltype(a)::value_type(5)); });
-  add(p + "neg", 4, 4, [ldv](S const* x, S* o, auto q) { R::sti(o, -ldv(x, q)); });
+  add(p + "not", 4, 4, [ldv](S const* x, S* o, auto q) { R::template sti<4>(o, ~ldv(x, q)); });
+  if (is_signed) add(p + "adds", 4, 4, [ldv](S const* x, S* o, auto q) { auto a = ldv(x, q); R::template sti<4>(o, a + typename decltype(a)::value_type(5)); });
+  add(p + "neg", 4, 4, [ldv](S const* x, S* o, auto q) { R::template sti<4>(o, -ldv(x, q)); });
   add(p + "eq", 8, 1, [ldv](S const* x, S* o, auto q) { o[0] = (ldv(x, q) == ldv(x + 4, q)) ? S(1) : S(0); });
   add(p + "neq", 8, 1, [ldv](S const* x, S* o, auto q) { o[0] = (ldv(x, q) != ldv(x + 4, q)) ? S(1) : S(0); });
 }
@@ -224,7 +294,7 @@ template<class R> void int_ops(R& r) {
   using I = typename R::I; using U = typename R::U;
   int_ops_t<I>(r, "i", true, [](I const* x, auto q) { C03_Q; return R::template ldi<Q>(x); }, [&r](std::string const& n, int nin, int nout, auto f) { r.ifam(n, nin, nout, f); });
   int_ops_t<U>(r, "u", false, [](U const* x, auto q) { C03_Q; return R::template ldu<Q>(x); }, [&r](std::string const& n, int nin, int nout, auto f) { r.ufam(n, nin, nout, f); });
-  r.ifam("iabs", 4, 4, [](I const* x, I* o, auto q) { C03_Q; R::sti(o, glm::abs(R::template ldi<Q>(x))); });
+  r.ifam("iabs", 4, 4, [](I const* x, I* o, auto q) { C03_Q; R::template sti<4>(o, glm::abs(R::template ldi<Q>(x))); });
 }
 
 template<class R> void all_ops(R& r) {
@@ -235,17 +305,17 @@ template<class R> void all_ops(R& r) {
   vec_arith<4, F>(r); vec_common<4, F>(r); vec_geom<4, F>(r);
   vec_arith<3, F>(r); vec_common<3, F>(r); vec_geom<3, F>(r);
   r.template fam<F>("cross3", 6, 3, [](F const* x, F* o, auto q) { C03_Q; st<3, Q>(o, glm::cross(ld<3, Q>(x), ld<3, Q>(x + 3))); });
-  matrix_ops<F>(r); quat_ops<F>(r);
+  matrix_ops<F>(r); quat_ops<F>(r); ctor_ops<F>(r);
   // double: the operations glm has SSE2 (2 x __m128d) / AVX (__m256d) code for, plus what is built on them (prefix d_)
   vec_arith<4, D>(r, "d_"); vec_arith<3, D>(r, "d_"); vec_geom<4, D>(r, "d_"); vec_geom<3, D>(r, "d_");
 #if C03_DFMA_OK
   r.template fam<D>("d_fma", 12, 4, [](D const* x, D* o, auto q) { C03_Q; st<4, Q>(o, glm::fma(ld<4, Q>(x), ld<4, Q>(x + 4), ld<4, Q>(x + 8))); });
 #endif
   r.template fam<D>("d_cross3", 6, 3, [](D const* x, D* o, auto q) { C03_Q; st<3, Q>(o, glm::cross(ld<3, Q>(x), ld<3, Q>(x + 3))); });
-  matrix_ops<D>(r, "d_"); quat_ops_d<D>(r);
+  matrix_ops<D>(r, "d_"); quat_ops_d<D>(r); ctor_ops<D>(r, "d_");
 #if GLM_ARCH & GLM_ARCH_SSE2_BIT
   kernel_ops(r);
 #endif
-  int_ops(r);
+  int_ops(r); int_ctor_ops(r);
 }
 } // namespace c03
